@@ -36,3 +36,77 @@ def try_fold(rule: str, anchor: str, thunk):
         return ('ok', fold_or_error(rule, anchor, thunk))
     except FoldRaise as r:
         return ('raise', r.kind)
+
+
+MUTATOR_METHODS = {'append', 'add', 'remove', 'pop', 'clear', 'update', 'extend', 'insert', 'discard', 'sort',
+                   'reverse', 'popitem', 'setdefault', 'fill', 'put'}
+
+
+def _root_attr(n: ast.AST, owner: str = 'self'):
+    """For self.a / self.a[..][..] returns 'a'; else None."""
+    while isinstance(n, ast.Subscript):
+        n = n.value
+    if isinstance(n, ast.Attribute) and isinstance(n.value, ast.Name) and n.value.id == owner:
+        return n.attr
+    return None
+
+
+def writers_of(fn: ast.FunctionDef, attrs: set, owner: str = 'self'):
+    """(attr, stmt) for every statement of `fn` that writes self.<attr> (assignment, augmented
+    assignment, item/slice store, del, mutator call on it or on one of its items)."""
+    out = []
+    for node in ast.walk(fn):
+        targets = []
+        if isinstance(node, ast.Assign):
+            for t in node.targets:
+                targets += list(t.elts) if isinstance(t, (ast.Tuple, ast.List)) else [t]
+        elif isinstance(node, (ast.AugAssign, ast.AnnAssign)):
+            if not (isinstance(node, ast.AnnAssign) and node.value is None):
+                targets = [node.target]
+        elif isinstance(node, ast.Delete):
+            targets = node.targets
+        elif isinstance(node, ast.Call) and isinstance(node.func, ast.Attribute) and node.func.attr in MUTATOR_METHODS:
+            a = _root_attr(node.func.value, owner)
+            if a in attrs:
+                out.append((a, node))
+        for t in targets:
+            a = _root_attr(t, owner)
+            if a in attrs:
+                out.append((a, node))
+    return out
+
+
+def external_mutations(repo: Repo, props: set, exclude_class: str = None, exclude_classes=()):
+    """Stores / mutator calls on `<anything>.<prop>` (or an item of it) anywhere in the package."""
+    excl = set(exclude_classes) | ({exclude_class} if exclude_class else set())
+    out = []
+
+    def root_prop(n):
+        while isinstance(n, ast.Subscript):
+            n = n.value
+        if isinstance(n, ast.Attribute) and n.attr in props:
+            return n.attr
+        return None
+    for m, c, fn in repo.all_functions():
+        if c is not None and c.name in excl:
+            continue
+        qual = f'{c.name}.{fn.name}' if c is not None else f'{m.name.split(".")[-1]}:{fn.name}'
+        for node in ast.walk(fn):
+            targets = []
+            if isinstance(node, ast.Assign):
+                for t in node.targets:
+                    targets += list(t.elts) if isinstance(t, (ast.Tuple, ast.List)) else [t]
+            elif isinstance(node, ast.AugAssign):
+                targets = [node.target]
+            elif isinstance(node, ast.Delete):
+                targets = node.targets
+            elif isinstance(node, ast.Call) and isinstance(node.func, ast.Attribute) and node.func.attr in MUTATOR_METHODS:
+                if root_prop(node.func.value):
+                    out.append((m, qual, node))
+            for t in targets:
+                if isinstance(t, ast.Subscript) and root_prop(t):
+                    out.append((m, qual, node))
+                elif isinstance(t, ast.Attribute) and t.attr in props and not (
+                        isinstance(t.value, ast.Name) and t.value.id == 'self'):
+                    out.append((m, qual, node))
+    return out
